@@ -29,10 +29,10 @@ class RmwProbe(e2.Probe):
         self.t, self.vt, self.f, self.result, self.storage = t, vt, f, result, storage
         cell = "cell_%s" % fn
         if storage == "static":
-            self.csrc = "%s\n_Atomic %s %s;\n%s %s(%s v) { return %s; }\n" % (pre, t.name, cell, t.name, fn, vt.name if vt else "int", expr.replace("CELL", cell))
+            self.csrc = "%s\n_Atomic(%s) %s;\n%s %s(%s v) { return %s; }\n" % (pre, t.name, cell, t.name, fn, vt.name if vt else "int", expr.replace("CELL", cell))
             self.vreg = "rdi"
         else:
-            self.csrc = "%s\n%s %s(_Atomic %s *p, %s v) { return %s; }\n" % (pre, t.name, fn, t.name, vt.name if vt else "int", expr.replace("CELL", "(*p)"))
+            self.csrc = "%s\n%s %s(_Atomic(%s) *p, %s v) { return %s; }\n" % (pre, t.name, fn, t.name, vt.name if vt else "int", expr.replace("CELL", "(*p)"))
             self.vreg = "rsi"
         self.volatile = [cell]
         self.cell = cell
@@ -175,6 +175,10 @@ class CasProbe(e2.Probe):
                                note="fails although the object equals expected, or succeeds although it differs"))
             out.append(e2.Goal("expected-updated/p%d" % pi, H, expf == z3.If(a.observed == exp0, exp0, a.observed),
                                note="on failure *expected must receive the observed value; on success it must be unchanged"))
+            stray = sorted(o for o in s.regions.get("&" + self.exp, {}) if not (0 <= o < n))
+            out.append(e2.Goal("expected-bounds/p%d" % pi, H, z3.BoolVal(not stray),
+                               note="bytes %s outside the %d-byte expected-value object were written" % (stray[:8], n)))
+            out.append(e2.Goal("frame/p%d" % pi, H, z3.And(s.regs["rsp"] == M.RSP0 + bv(8), s.regs["rbp"] == z3.BitVec("in_rbp", 64))))
         return out
 
 
@@ -224,6 +228,24 @@ def mk_probes(tier, only=None):
                         P.append(RmwProbe("fetch/%s/%s_explicit/%s" % (storage, nm, t.cid), fn(), t, t, "atomic_fetch_%s_explicit(%s, v, memory_order_seq_cst)" % (nm, cellp), f, "old", storage, pre=HDR))
             if want("xchg"):
                 P.append(RmwProbe("xchg/%s/%s" % (storage, t.cid), fn(), t, t, "atomic_exchange(&CELL, v)", lambda obs, v: (v, TRUE), "old", storage, pre=HDR))
+    if want("ptr"):
+        # _Atomic pointer objects: += -= ++ -- scale by the element size
+        for esz, ename in [(1, "char"), (8, "long"), (24, "struct E24")]:
+            PT = cref.T("%s *" % ename, 64, False, rank=4)
+            pre = "struct E24 { long a, b, c; };" if esz == 24 else ""
+            for storage in ("static", "pointer"):
+                for opn, sign in (("add", 1), ("sub", -1)):
+                    for vt in (INT, LONG, UCHAR):
+                        def f(obs, v, esz=esz, sign=sign, vt=vt):
+                            return obs + z3.BitVecVal(sign * esz, 64) * conv(v, vt, LONG), TRUE
+                        P.append(RmwProbe("ptr/%s/%s/e%d/%s" % (storage, opn, esz, vt.cid), fn(), PT, vt, "CELL %s= v" % ("+" if sign > 0 else "-"), f, "new", storage, pre=pre))
+                for form, sign, res in [("preinc", 1, "new"), ("predec", -1, "new"), ("postinc", 1, "old"), ("postdec", -1, "old")]:
+                    def f(obs, v, esz=esz, sign=sign):
+                        return obs + z3.BitVecVal(sign * esz, 64), TRUE
+                    src = {"preinc": "++CELL", "predec": "--CELL", "postinc": "CELL++", "postdec": "CELL--"}[form]
+                    P.append(RmwProbe("ptr/%s/%s/e%d" % (storage, form, esz), fn(), PT, None, src, f, res, storage, pre=pre))
+                P.append(RmwProbe("ptr/%s/xchg/e%d" % (storage, esz), fn(), PT, PT, "atomic_exchange(&CELL, v)", lambda obs, v: (v, TRUE), "old", storage,
+                                  pre=pre + "\n" + HDR))
     if want("cas"):
         for t in TYPES:
             P.append(CasProbe("cas/strong/%s" % t.cid, fn(), t))
